@@ -1432,6 +1432,9 @@ func encoderCrossCheck(prog *Program, cs *ContractSet, prop string, cover *Oblig
 			if len(bad) > 0 {
 				cc.Held = false
 				cc.Failed = append(cc.Failed, bad...)
+				os.MkdirAll(filepath.Join(outRoot(), "replay", prop), 0o755)
+				data, _ := json.MarshalIndent(rep, "", " ")
+				os.WriteFile(filepath.Join(outRoot(), "replay", prop, sanitize("crosscheck_"+cover.Unit)+".json"), data, 0o644)
 			}
 		}
 		// block this model on its scalar inputs
